@@ -199,7 +199,7 @@ Theorem found_files_checked_against_their_entries (L : hashlib) decompress pgp_v
   assert_directory_verifies L decompress pgp_verify w l path pol lm = Ok (l', b, log) ->
   forall ed, get_file_entry_dict L decompress pgp_verify w l path None true = Ok (l', ed) ->
     (forall k dd, In (k, dd) ed -> NoDup (map fst dd)) ->
-    forall dp rel ents f, reach w ed (pjoin rootdir path) path dp rel -> p_scandir w dp = Ok ents ->
+    forall dp rel ents f, reach w ed (walk_top path) path dp rel -> p_scandir w dp = Ok ents ->
       In f (map fst (filter (fun x => negb (snd x)) ents)) -> visible (l_top l') rel f = true ->
       presented_at L w (mk_vctx (l_top l') (l_dev l') pol lm) (pjoin dp f) (pjoin rel f) (lookup ed rel f) log.
 Proof.
@@ -224,7 +224,7 @@ Theorem found_files_checked_exactly (L : hashlib) decompress pgp_verify w l path
   wf_world w -> nodup_world w -> key_ok path -> lrel l ->
   assert_directory_verifies L decompress pgp_verify w l path pol lm = Ok (l', b, log) ->
   exists ed, get_file_entry_dict L decompress pgp_verify w l path None true = Ok (l', ed) /\
-    forall dp rel ents f, reach w ed (pjoin rootdir path) path dp rel -> p_scandir w dp = Ok ents ->
+    forall dp rel ents f, reach w ed (walk_top path) path dp rel -> p_scandir w dp = Ok ents ->
       In f (map fst (filter (fun x => negb (snd x)) ents)) -> visible (l_top l') rel f = true ->
       presented_at L w (mk_vctx (l_top l') (l_dev l') pol lm) (pjoin dp f) (pjoin rel f) (lookup ed rel f) log.
 Proof.
